@@ -143,6 +143,13 @@ FRAME_ID = [['c', 'i0', '0'], ['c', 'i1', '1'], ['b', 'i2', '0'], ['a', 'i3', '1
             ['c', 'i0', '0'], ['b', 'i1', '1'], ['a', 'i2', '0'], ['a', 'i7', '1']]
 
 
+# columns named like constructed interaction features next to their constituents (pairs of names whose joined texts coincide)
+COLS_AND = ['fa', 'fc', 'fb AND fc', 'fa AND fb', 'label']
+FRAME_AND = [['c', 'u', 'x', 'p', '1'], ['b', 'w', 'y', 'q', '0'], ['b', 'u', 'x', 'q', '0'], ['a', 'v', 'z', 'p', '0'], ['b', 'w', 'y', 'p', '1'], ['a', 'w', 'x', 'r', '0'],
+             ['c', 'v', 'z', 'q', '1'], ['c', 'w', 'y', 'r', '1']]
+FRAMES = {True: (FRAME_ID, COLS_ID), 'id': (FRAME_ID, COLS_ID), 'and': (FRAME_AND, COLS_AND)}
+
+
 def make_args(**over):
     a = types.SimpleNamespace(heuristic='MI-numba-randomized', label_column='label', target_ranking_only='True', combination_number_upper_bound=10 ** 4, reference_model_JSON='',
                               mi_stratified_sampling_ratio=1.0, feature_set_focus=None, transformers='none', explode_multivalue_features='False', subfeature_mapping='False',
@@ -206,6 +213,8 @@ def jobs(tier):
         for first in firsts:
             out.append({'cond': 'shuffle', 'mode': mode, 'pins': {'o0': first}, 'weight': 200, 'label': f'target_only={mode},first={first}'})
     out.append({'cond': 'setorder', 'pins': {}, 'weight': 100, 'label': 'focus set fa,fb,fc'})
+    for first in range(4):
+        out.append({'cond': 'schedule', 'workers': 2, 'ratio': 1.0, 'mode': 'False', 'idframe': 'and', 'pins': {'o0': first}, 'weight': 300, 'label': f'pairwise, columns named like interaction features, pickled closures, first task={first}'})
     for first in range(6):
         out.append({'cond': 'schedule', 'workers': 2, 'ratio': 0.5, 'mode': 'False', 'idframe': True, 'pins': {'o0': first}, 'weight': 300, 'label': f'pairwise with an id-like column, ratio 0.5, pickled closures, first task={first}'})
     if b.get('pairwise-schedule'):
@@ -225,8 +234,8 @@ def run_job(job):
         return run_setorder(job)
     mode = job.get('mode', 'True')
     ratio = job.get('ratio', 1.0)
-    idf = bool(job.get('idframe'))
-    fk = dict(frame=FRAME_ID, cols=COLS_ID) if idf else {}
+    idf = job.get('idframe') or False
+    fk = dict(frame=FRAMES[idf][0], cols=FRAMES[idf][1]) if idf else {}
     ref_trip, ref_g = rank(cr, SchedPool(list(range(64)), [i for i in range(64)], None, [cr, ie], pickled=True) if idf else PL.SerialPool(), make_args(target_ranking_only=mode, mi_stratified_sampling_ratio=ratio), **fk)
     ntask = len(ref_trip) // 2
     W = job.get('workers', 1)
@@ -251,11 +260,11 @@ def run_job(job):
         order = lehmer(st['o'], ntask, lambda v, lo, hi: int(SInt(v, lo, hi)))
         if cond == 'schedule':
             workers = [int(SInt(v, 0, W - 1)) for v in st['w']]
-            pool = SchedPool(order, workers, None, [cr, ie], pickled=idf)
+            pool = SchedPool(order, workers, None, [cr, ie], pickled=bool(idf))
             trip, g = rank(cr, pool, make_args(target_ranking_only=mode, mi_stratified_sampling_ratio=ratio), **fk)
-            trip2, g2 = rank(cr, SchedPool(order, workers, None, [cr, ie], pickled=idf), make_args(target_ranking_only=mode, mi_stratified_sampling_ratio=ratio), **fk)
+            trip2, g2 = rank(cr, SchedPool(order, workers, None, [cr, ie], pickled=bool(idf)), make_args(target_ranking_only=mode, mi_stratified_sampling_ratio=ratio), **fk)
             w = {'cond': cond, 'order': order, 'workers': workers, 'ratio': ratio, 'mode': mode, 'idframe': idf}
-            if ratio == 1.0:
+            if ratio == 1.0 and not idf:
                 # a second mini-batch with other data through the SAME pool (workers persist): its scores must be those of a fresh serial run
                 tripB, _ = rank(cr, pool, make_args(target_ranking_only=mode), frame=FRAME_B, fresh=False)
                 if sorted(tripB) != sorted(st['refB']):
@@ -281,7 +290,7 @@ def run_job(job):
             probs.append('aggregated scores differ from the serial run')
         if sorted(trip2) != sorted(trip):
             probs.append('a second identical call gives different triplets')
-        d = direct_scores_ok(trip) if ratio == 1.0 else None
+        d = direct_scores_ok(trip) if (ratio == 1.0 and not idf) else None
         if d:
             probs.append(d)
         if probs or out.twin:
@@ -404,6 +413,25 @@ print(json.dumps(sorted([a, b, float(s)] for a, b, s in res[0].triplet_scores)))
 '''
 
 
+class ChunkedRealPool:
+    """the real pathos pool with the chunk size of its map calls chosen by the replay instead of pathos' default ceil(n / (4 * nodes)):
+    how many tasks travel together (and share one unpickled copy of the mapped closure) is a scheduling choice of the pool"""
+
+    def __init__(self, real, chunksize):
+        self.real, self.chunksize = real, chunksize
+        self.ncpus = self.nodes = real.ncpus
+
+    def __enter__(self):
+        return self
+
+    def __exit__(self, *a):
+        return False
+
+    def amap(self, f, items):
+        items = list(items)
+        return self.real.amap(f, items, chunksize=max(1, min(self.chunksize, len(items))))
+
+
 def replay_real_pool(cr, w):
     """the real pathos process pool at several sizes (its chunking of the task list depends on the size) and task orders"""
     from pathos.multiprocessing import ProcessingPool
@@ -411,18 +439,26 @@ def replay_real_pool(cr, w):
     outs = {}
     real_sleep = _t.sleep
     for nodes in (1, 2, 3, 6):
-        for oname, perm in (('given order', None), ('witness order', w['order']), ('rotated order', 'rot'), ('reversed order', 'rev')):
+        for oname, perm in [('given order', None), ('witness order', w['order']), ('rotated order', 'rot'), ('reversed order', 'rev')] + ([(f'shuffle #{k}', ('rnd', k)) for k in range(3)] + [('given order, one task per chunk', ('chunk', 1)), ('given order, all tasks in one chunk', ('chunk', 10 ** 6))] if nodes <= 2 else []):
             def shuf(lst, perm=perm):
-                if perm == 'rot':
+                if isinstance(perm, tuple) and perm[0] == 'rnd':
+                    random.Random(perm[1]).shuffle(lst)
+                elif isinstance(perm, tuple):
+                    pass
+                elif perm == 'rot':
                     lst[:] = lst[1:] + lst[:1]
                 elif perm == 'rev':
                     lst.reverse()
                 elif perm is not None and sorted(perm[:len(lst)]) == list(range(len(lst))):
                     lst[:] = [lst[i] for i in perm[:len(lst)]]
             pool = ProcessingPool(nodes)
+            if isinstance(perm, tuple) and perm[0] == 'chunk':
+                pool_used = ChunkedRealPool(pool, perm[1])
+            else:
+                pool_used = pool
             try:
                 cr.time.sleep = lambda s: real_sleep(0.05)
-                trip, g = rank(cr, pool, make_args(target_ranking_only=w.get('mode', 'True'), mi_stratified_sampling_ratio=w.get('ratio', 1.0)), shuffle=shuf, frame=FRAME_ID, cols=COLS_ID)
+                trip, g = rank(cr, pool_used, make_args(target_ranking_only=w.get('mode', 'True'), mi_stratified_sampling_ratio=w.get('ratio', 1.0)), shuffle=shuf, frame=FRAMES[w['idframe']][0], cols=FRAMES[w['idframe']][1])
             finally:
                 cr.time.sleep = real_sleep
                 pool.close()
@@ -433,8 +469,8 @@ def replay_real_pool(cr, w):
     for k in keys[1:]:
         if outs[k] != outs[keys[0]]:
             d = sorted(p for p in outs[k] if outs[k][p] != outs[keys[0]].get(p))[:3]
-            return {'reproduced': True, 'signature': 'C09:pool-size-dependent-scores', 'what': f'real pathos pool, frame with an id-like column, sampling ratio {w.get("ratio")}, pairwise: {keys[0][0]} worker(s), {keys[0][1]} and {k[0]} worker(s), {k[1]} give different scores for {d}: {[outs[keys[0]].get(p) for p in d]} vs {[outs[k][p] for p in d]}'}
-    return {'reproduced': False, 'what': 'identical scores for real pools of 1, 2, 3 and 6 workers and four task orders'}
+            return {'reproduced': True, 'signature': 'C09:pool-size-dependent-scores', 'what': f'real pathos pool, columns {FRAMES[w["idframe"]][1]}, sampling ratio {w.get("ratio")}, pairwise: {keys[0][0]} worker(s), {keys[0][1]} and {k[0]} worker(s), {k[1]} give different scores for {d}: {[outs[keys[0]].get(p) for p in d]} vs {[outs[k][p] for p in d]}'}
+    return {'reproduced': False, 'what': 'identical scores for real pools of 1, 2, 3 and 6 workers and four to ten task orders'}
 
 
 def replay(w):
